@@ -305,6 +305,26 @@ func (e *env) v1Witness(cs consensus.State, orig types.Block, kinds []string) {
 				})
 			}
 		}
+		// bytes the signer never produced appended to a signature: the signature object was corrupted
+		variant("signature-bytes-appended", true, func(tt *types.Transaction) bool {
+			if sigUnderUnknownAlg(tt, 0) || len(tt.Signatures[0].Signature) != 64 {
+				return false
+			}
+			tt.Signatures[0].Signature = append(append([]byte(nil), tt.Signatures[0].Signature...), []byte("these bytes were never produced by the signer")...)
+			return true
+		})
+		// a whole-transaction signature whose other covered-field lists are filled in afterwards (with indices of
+		// fields that do not exist): part of the signature object nobody signed
+		variant("covered-field-lists-filled-in-beside-the-whole-transaction-flag", true, func(tt *types.Transaction) bool {
+			cf := &tt.Signatures[0].CoveredFields
+			if sigUnderUnknownAlg(tt, 0) || !cf.WholeTransaction || len(cf.SiacoinOutputs)+len(cf.MinerFees)+len(cf.ArbitraryData) != 0 {
+				return false
+			}
+			cf.SiacoinOutputs = []uint64{7 + uint64(len(tt.SiacoinOutputs))}
+			cf.MinerFees = []uint64{3, 2, 1}
+			cf.ArbitraryData = []uint64{1<<64 - 1}
+			return true
+		})
 		variant("signature-duplicated", true, func(tt *types.Transaction) bool {
 			tt.Signatures = append(tt.Signatures, tt.Signatures[0])
 			return true
